@@ -97,11 +97,33 @@ def decode(code, nlevels):
     return digits[::-1]
 
 
+class RepoRaised(Exception):
+    """the code under test raised inside a pool worker (the traceback does not survive the process boundary, so the
+    worker reports the innermost frame inside the repository itself)"""
+
+    def __init__(self, site, error, tb_text, case):
+        Exception.__init__(self, error)
+        self.site, self.error, self.tb_text, self.case = site, error, tb_text, case
+
+
 def _rows_chunk(args):
     rowfn, nlevels, lo, hi = args
     out = []
     for code in range(lo, hi):
-        out.append(" ".join(map(str, rowfn(code, decode(code, nlevels)))))
+        try:
+            out.append(" ".join(map(str, rowfn(code, decode(code, nlevels)))))
+        except Exception as ex:
+            import os
+            import traceback
+            from harness import common
+            tb = traceback.extract_tb(ex.__traceback__)
+            repo_eqsig = os.path.join(os.path.realpath(common.REPO), "eqsig") + os.sep
+            inner = [f for f in tb if os.path.realpath(f.filename).startswith(repo_eqsig)]
+            if not inner:
+                raise
+            site = "%s:%d %s" % (os.path.basename(inner[-1].filename), inner[-1].lineno, inner[-1].name)
+            return ("RAISED", site, "%s: %s" % (type(ex).__name__, ex), "".join(traceback.format_exception(type(ex), ex, ex.__traceback__)[-12:]),
+                    {"code": code, "digits": decode(code, nlevels)})
     return "\n".join(out) + "\n"
 
 
@@ -118,9 +140,14 @@ def build_table(path, nlevels, maxlen, rowfn, procs=16):
     with open(path, "w") as f:
         if total < 2000 or procs <= 1:
             for j in jobs:
-                f.write(_rows_chunk(j))
+                chunk = _rows_chunk(j)
+                if isinstance(chunk, tuple):
+                    raise RepoRaised(*chunk[1:])
+                f.write(chunk)
         else:
             with ctx.Pool(procs) as pool:
                 for chunk in pool.imap(_rows_chunk, jobs):
+                    if isinstance(chunk, tuple):
+                        raise RepoRaised(*chunk[1:])
                     f.write(chunk)
     return total
